@@ -44,6 +44,7 @@ type Contract struct {
 	Getter   bool // pure getter: the result is a function of the receiver (and its ghost version)
 	LocalCalls bool // calls through function values only affect the objects passed to them
 	HavocHeap  bool // may change any program state, but ghost effect logs only as declared
+	Function   bool // deterministic function of its scalar arguments (same arguments, same results)
 }
 
 type SpecFn struct {
@@ -105,7 +106,7 @@ func newContractSet() *ContractSet {
 	return &ContractSet{Contracts: map[string]*Contract{}, Specs: map[string]*SpecFn{}, Ghosts: map[string]*GhostDecl{}, ObjInvs: map[string][]*ObjInv{}, Guarded: map[string]string{}}
 }
 
-var clauseRe = regexp.MustCompile(`^(requires|ensures|modifies|let|cover|assert|invariant|decreases|ghostupdate)(\[[^\]]*\])?\s+(.*)$`)
+var clauseRe = regexp.MustCompile(`^(requires|domain|ensures|modifies|let|cover|assert|invariant|decreases|ghostupdate)(\[[^\]]*\])?\s+(.*)$`)
 
 func splitProps(s string) []string {
 	var out []string
@@ -194,6 +195,8 @@ func (cs *ContractSet) loadContractFile(path string, pkgPath string) error {
 					c.LocalCalls = true
 				case "havocheap":
 					c.HavocHeap = true
+				case "function":
+					c.Function = true
 				case "select", "loop":
 					// fragment selector: select N case K | loop N body
 					if j+3 < len(rest)+0 && (rest[j+2] == "case") {
